@@ -157,11 +157,18 @@ def compare_graph(src, out, nodes, with_seq, viol, who, expect_bo=True):
     exp_links = src.canon_links(nodes=set(nodes))
     got_links = out.canon_links()
     if got_links != exp_links:
+        # a link that the input declares once from each end is ONE link listed twice: writing it once or
+        # twice are both "the links of the input". Everything else must agree exactly: every output link is
+        # one of the input's declarations (ends, overlap, tags), none more often than the input listed it,
+        # and every distinct input link (ends + overlap) is present.
         ce, cg = collections.Counter(exp_links), collections.Counter(got_links)
-        lost = list((ce - cg).elements())[:3]
         extra = list((cg - ce).elements())[:3]
-        viol.append({"kind": "links", "msg": f"{who}: links lost {lost} / invented or duplicated {extra}",
-                     "witness": {"lost": lost, "extra": extra}})
+        ends_in = {(e, ov) for e, ov, _t in exp_links}
+        ends_out = {(e, ov) for e, ov, _t in got_links}
+        lost = sorted(ends_in - ends_out)[:3]
+        if extra or lost:
+            viol.append({"kind": "links", "msg": f"{who}: links lost {lost} / invented or duplicated {extra}",
+                         "witness": {"lost": lost, "extra": extra}})
 
 
 def part_a(ctx, rng, casedir, sit, viol, sigs):
